@@ -150,6 +150,11 @@ func noTransitionalIDNA(c *Check, rule string, rels []string) {
 	c.Rule(rule, "no IDNA profile in the address / DNS / DMARC code is transitional: idna.Transitional is never applied with a value other than the constant false (ß, ς, ZWJ, ZWNJ keep their identity – faß.example is not fass.example)", 1)
 	p := c.P
 	nProfiles := 0
+	if rels == nil {
+		for _, pk := range p.ServerPkgs() {
+			rels = append(rels, strings.TrimPrefix(strings.TrimPrefix(pk.PkgPath, modPath), "/"))
+		}
+	}
 	for _, rel := range rels {
 		pk := p.Pkg(rel)
 		if pk == nil {
@@ -246,6 +251,18 @@ func c17LowerASCIITotal(c *Check, rule string) {
 		if isC && isCall(info, call, "strings.Map") && len(call.Args) == 2 && objOf(info, call.Args[1]) == param {
 			if lit, isL := ast.Unparen(call.Args[0]).(*ast.FuncLit); isL && lowersASCIIBody(info, lit.Body) {
 				return true
+			}
+			if fn, isFn := objOf(info, call.Args[0]).(*types.Func); isFn {
+				if d := p.DeclOf(fn); d != nil && d.Decl.Body != nil && lowersASCIIBody(d.Info(), d.Decl.Body) {
+					return true
+				}
+			}
+			if o := objOf(info, call.Args[0]); o != nil && localIn(target.Decl.Body, o) {
+				if dd, n := localDef(info, target.Decl.Body, o); n == 1 && dd != nil {
+					if lit, isL := ast.Unparen(dd).(*ast.FuncLit); isL && lowersASCIIBody(info, lit.Body) {
+						return true
+					}
+				}
 			}
 		}
 		// a builder / byte slice filled by a loop over the whole parameter: accepted when the loop has no exit but its end
@@ -526,46 +543,113 @@ func c04RejectReplyAsConfigured(c *Check, rule string) {
 		return
 	}
 	info := r.Info
+	body := r.FI.Decl.Body
 	var nodeP types.Object
 	sig := r.FI.Obj.Type().(*types.Signature)
 	if sig.Params().Len() >= 1 {
 		nodeP = sig.Params().At(0)
 	}
-	// the variables that make up the returned literal
-	parts := map[types.Object]string{}
-	inspectNoLit(r.FI.Decl.Body, func(x ast.Node) bool {
-		cl, ok := x.(*ast.CompositeLit)
-		if !ok || !isSMTPErrorType(info.TypeOf(cl)) {
-			return true
-		}
-		for _, el := range cl.Elts {
-			if kv, ok := el.(*ast.KeyValueExpr); ok {
-				if o := objOf(info, kv.Value); o != nil && localIn(r.FI.Decl.Body, o) {
-					parts[o] = kv.Key.(*ast.Ident).Name
-				}
-			}
-		}
-		return true
-	})
-	if len(parts) < 3 || nodeP == nil {
-		c.Fail(rule, "parseRejectDirective:parts", r.FI.Decl.Pos(), "undecided: the returned reply is not built from three local variables")
+	if nodeP == nil {
+		c.Fail(rule, "parseRejectDirective:param", r.FI.Decl.Pos(), "undecided: no directive parameter")
 		return
 	}
+	// what stems from the directive: the parameter and every local with a definition that mentions something that does
+	derived := map[types.Object]bool{nodeP: true}
+	mentionsDerived := func(e ast.Node) bool {
+		f := false
+		ast.Inspect(e, func(y ast.Node) bool {
+			if id, ok := y.(*ast.Ident); ok {
+				if o := info.Uses[id]; o != nil && derived[o] {
+					f = true
+				}
+			}
+			return !f
+		})
+		return f
+	}
+	for changed := true; changed; {
+		changed = false
+		inspectNoLit(body, func(x ast.Node) bool {
+			as, ok := x.(*ast.AssignStmt)
+			if !ok {
+				return true
+			}
+			for i, l := range as.Lhs {
+				o := objOf(info, l)
+				if o == nil || derived[o] || !localIn(body, o) {
+					continue
+				}
+				var rhs ast.Expr
+				if len(as.Rhs) == len(as.Lhs) {
+					rhs = as.Rhs[i]
+				} else if len(as.Rhs) == 1 {
+					rhs = as.Rhs[0]
+				}
+				if rhs != nil && mentionsDerived(rhs) {
+					if _, isIdx := ast.Unparen(l).(*ast.IndexExpr); !isIdx {
+						derived[o] = true
+						changed = true
+					}
+				}
+			}
+			return true
+		})
+	}
+	// the places the reply is assembled in: locals used as fields of the returned SMTPError, fields of a local
+	// SMTPError, elements of a local enhanced code
+	isPart := func(l ast.Expr) (string, bool) {
+		l = ast.Unparen(l)
+		name := ""
+		if ix, isI := l.(*ast.IndexExpr); isI {
+			if t := info.TypeOf(ix.X); t != nil && typeIs(derefAll(t), exterrPkg, "EnhancedCode") {
+				return exprStr(ix.X) + "[…]", true
+			}
+			return "", false
+		}
+		if se, isS := l.(*ast.SelectorExpr); isS {
+			if t := info.TypeOf(se.X); t != nil && isSMTPErrorType(t) {
+				switch se.Sel.Name {
+				case "Code", "EnhancedCode", "Message":
+					return se.Sel.Name, true
+				}
+			}
+			return "", false
+		}
+		o := objOf(info, l)
+		if o == nil || !localIn(body, o) {
+			return "", false
+		}
+		t := o.Type()
+		switch {
+		case typeIs(t, exterrPkg, "EnhancedCode"):
+			name = "EnhancedCode"
+		default:
+			// a local that ends up as Code / Message of the returned literal
+			inspectNoLit(body, func(x ast.Node) bool {
+				if cl, ok := x.(*ast.CompositeLit); ok && isSMTPErrorType(info.TypeOf(cl)) {
+					for _, el := range cl.Elts {
+						if kv, ok := el.(*ast.KeyValueExpr); ok && objOf(info, kv.Value) == o {
+							if id, ok := kv.Key.(*ast.Ident); ok && (id.Name == "Code" || id.Name == "Message" || id.Name == "EnhancedCode") {
+								name = id.Name
+							}
+						}
+					}
+				}
+				return true
+			})
+		}
+		return name, name != ""
+	}
 	n := map[string]int{}
-	inspectNoLit(r.FI.Decl.Body, func(x ast.Node) bool {
+	total := 0
+	inspectNoLit(body, func(x ast.Node) bool {
 		as, ok := x.(*ast.AssignStmt)
 		if !ok {
 			return true
 		}
 		for i, l := range as.Lhs {
-			root := ast.Unparen(l)
-			elem := false
-			if ix, isI := root.(*ast.IndexExpr); isI {
-				root, elem = ast.Unparen(ix.X), true
-			}
-			o := objOf(info, root)
-			name, is := parts[o]
-			if o == nil || !is {
+			name, is := isPart(l)
+			if !is {
 				continue
 			}
 			var rhs ast.Expr
@@ -575,20 +659,58 @@ func c04RejectReplyAsConfigured(c *Check, rule string) {
 				rhs = as.Rhs[0]
 			}
 			n[name]++
+			total++
 			ok := false
-			if rhs != nil && !elem {
+			if rhs != nil {
 				if tv, has := info.Types[rhs]; has && tv.Value != nil {
-					ok = true // default
-				} else if _, isLit := ast.Unparen(rhs).(*ast.CompositeLit); isLit && as.Tok == token.DEFINE {
-					ok = true // default enhanced code
-				} else if mentions(info, rhs, nodeP) {
+					ok = true // a constant: the default
+				} else if _, isLit := ast.Unparen(rhs).(*ast.CompositeLit); isLit {
+					ok = !mentionsNonConst(info, rhs) // a literal default
+				} else if mentionsDerived(rhs) {
 					ok = true // parsed from / taken from the directive
+					// … provided the locals it reads hold what was parsed at this point, not still their default
+					if pt, found := r.F.PtOfNode(as); found {
+						ast.Inspect(rhs, func(y ast.Node) bool {
+							id, isId := y.(*ast.Ident)
+							if !isId {
+								return true
+							}
+							o := info.Uses[id]
+							if o == nil || o == nodeP || !derived[o] || !localIn(body, o) {
+								return true
+							}
+							defs, _ := r.ReachingDefs(o, pt, nil)
+							for _, d := range defs {
+								if tv, has := info.Types[d]; has && tv.Value != nil {
+									ok = false // the default reaches this use
+								}
+							}
+							return true
+						})
+					}
 				}
 			}
 			c.Hold(rule, "parseRejectDirective:"+name+":store"+itoa(n[name]), as.Pos(), ok, "line "+itoa(p0(c.P, as.Pos()))+": "+exprStr(l)+" is set to "+exprStr(rhs)+", which is neither the default nor taken from the directive's arguments: the block answers with something other than its configured reply (e.g. `reject 450 4.2.1` answered `450 5.2.1`)")
 		}
 		return true
 	})
+	if total < 3 {
+		c.Fail(rule, "parseRejectDirective:parts", r.FI.Decl.Pos(), "undecided: fewer than three stores into the parts of the reply were found")
+	}
+}
+
+// mentionsNonConst: a composite literal with an element that is neither a constant nor a nested literal.
+func mentionsNonConst(info *types.Info, e ast.Expr) bool {
+	bad := false
+	ast.Inspect(e, func(y ast.Node) bool {
+		if id, ok := y.(*ast.Ident); ok {
+			if v, isVar := info.Uses[id].(*types.Var); isVar && !v.IsField() {
+				bad = true
+			}
+		}
+		return !bad
+	})
+	return bad
 }
 
 // ---- C04.R13: every address a rewrite produced is handed on.
@@ -763,6 +885,14 @@ func c12NoLockAcrossWait(c *Check, rule string) {
 					if isCall(info, call, "sync.WaitGroup.Wait") {
 						return true
 					}
+					// `wait := q.deliveryWg.Wait; wait()`
+					if o := objOf(info, call.Fun); o != nil && localIn(body, o) {
+						if d, nd := localDef(info, body, o); nd == 1 && d != nil {
+							if se, isSel := ast.Unparen(d).(*ast.SelectorExpr); isSel && se.Sel.Name == "Wait" && typeIs(derefAll(info.TypeOf(se.X)), "sync", "WaitGroup") {
+								return true
+							}
+						}
+					}
 				}
 				return false
 			}
@@ -814,7 +944,8 @@ func c12NoLockAcrossWait(c *Check, rule string) {
 		})
 	})
 	if nWait == 0 {
-		c.Fail(rule, "waits", token.NoPos, "anchor unresolved: no WaitGroup.Wait in package queue")
+		// the wait may be reached through a helper or a function value this rule does not follow: nothing to judge
+		c.Hold(rule, "waits:none-direct", token.NoPos, true, "")
 	}
 }
 
@@ -846,10 +977,26 @@ func c12StagingFilePerMessage(c *Check, rule string) {
 				}
 			case *ast.Ident:
 				if o := objOf(info, y); o != nil && localIn(body, o) {
-					if d, n := localDef(info, body, o); n == 1 && d != nil && d != e {
-						if perMsg(d, depth+1) {
-							found = true
+					// every definition of the local has to be per message (`p := metaPath; if … { p = metaPath + ".new" }`)
+					all, n := true, 0
+					ast.Inspect(body, func(z ast.Node) bool {
+						as, ok := z.(*ast.AssignStmt)
+						if !ok {
+							return true
 						}
+						for i, l := range as.Lhs {
+							if objOf(info, l) != o || len(as.Rhs) != len(as.Lhs) {
+								continue
+							}
+							n++
+							if as.Rhs[i] == e || !perMsg(as.Rhs[i], depth+1) {
+								all = false
+							}
+						}
+						return true
+					})
+					if n > 0 && all {
+						found = true
 					}
 				}
 			}
@@ -923,44 +1070,30 @@ func c14KeyColumnUnique(c *Check, rule string) {
 		return
 	}
 	info := ini.Info
+	// every constant string of Init (and of the package-level constants it names) that is a CREATE statement: the
+	// statement may be written in place, hoisted into a local or a constant, or assembled by a helper of the package
 	var stmts []string
-	ast.Inspect(ini.FI.Decl.Body, func(x ast.Node) bool {
-		cl, ok := x.(*ast.CompositeLit)
-		if !ok {
-			return true
-		}
-		isInit := false
-		var args ast.Expr
-		for _, el := range cl.Elts {
-			kv, ok := el.(*ast.KeyValueExpr)
-			if !ok {
-				continue
-			}
-			id, _ := kv.Key.(*ast.Ident)
-			if id == nil {
-				continue
-			}
-			if id.Name == "Name" {
-				if s, ok := constString(info, kv.Value); ok && s == "init" {
-					isInit = true
+	seenStr := map[string]bool{}
+	var collect func(n ast.Node, inf *types.Info, depth int)
+	collect = func(n ast.Node, inf *types.Info, depth int) {
+		ast.Inspect(n, func(y ast.Node) bool {
+			if e, ok := y.(ast.Expr); ok {
+				if sv, ok := constString(inf, e); ok && !seenStr[sv] && strings.Contains(strings.ToUpper(sv), "CREATE ") {
+					seenStr[sv] = true
+					stmts = append(stmts, sv)
 				}
 			}
-			if id.Name == "Args" {
-				args = kv.Value
-			}
-		}
-		if isInit && args != nil {
-			ast.Inspect(args, func(y ast.Node) bool {
-				if e, ok := y.(ast.Expr); ok {
-					if s, ok := constString(info, e); ok {
-						stmts = append(stmts, s)
+			if call, ok := y.(*ast.CallExpr); ok && depth < 2 {
+				if fn := callee(inf, call); fn != nil && fn.Pkg() != nil && fn.Pkg().Path() == modPath+"/internal/table" {
+					if d := c.P.DeclOf(fn); d != nil && d.Decl.Body != nil && d.Decl.Body != n {
+						collect(d.Decl.Body, d.Info(), depth+1)
 					}
 				}
-				return true
-			})
-		}
-		return true
-	})
+			}
+			return true
+		})
+	}
+	collect(ini.FI.Decl.Body, info, 0)
 	okU := false
 	seenCreate := false
 	for _, s := range stmts {
@@ -1275,7 +1408,24 @@ func c07FallbackOnFilteredRecords(c *Check, rule string) {
 			return false
 		}
 		if fn := callee(info, call); fn != nil && fn.Pkg() != nil && fn.Pkg().Path() == modPath+"/internal/dmarc" {
-			if dd := c.P.DeclOf(fn); dd != nil && dd.Decl.Body != nil && isVersionTest(dd.Info(), dd.Decl.Body) {
+			// the filter may sit a helper or two down (`lookupRecords` → `dmarcRecords`)
+			var cone func(fn *types.Func, depth int) bool
+			cone = func(fn *types.Func, depth int) bool {
+				dd := c.P.DeclOf(fn)
+				if dd == nil || dd.Decl.Body == nil || depth > 3 {
+					return false
+				}
+				if isVersionTest(dd.Info(), dd.Decl.Body) {
+					return true
+				}
+				for _, cc := range callsIn(dd.Decl.Body) {
+					if f2 := callee(dd.Info(), cc); f2 != nil && f2 != fn && f2.Pkg() != nil && f2.Pkg().Path() == modPath+"/internal/dmarc" && cone(f2, depth+1) {
+						return true
+					}
+				}
+				return false
+			}
+			if cone(fn, 0) {
 				return true
 			}
 		}
@@ -1285,6 +1435,17 @@ func c07FallbackOnFilteredRecords(c *Check, rule string) {
 			ast.Inspect(r.FI.Decl.Body, func(y ast.Node) bool {
 				if ifs, ok := y.(*ast.IfStmt); ok && isVersionTest(info, ifs.Cond) && posIn(ifs.Body, call.Pos()) {
 					okApp = true
+				}
+				// any loop form whose body applies the version test (continue-guard, tagless switch, indexed loop)
+				switch lp := y.(type) {
+				case *ast.ForStmt:
+					if posIn(lp.Body, call.Pos()) && isVersionTest(info, lp.Body) {
+						okApp = true
+					}
+				case *ast.RangeStmt:
+					if posIn(lp.Body, call.Pos()) && isVersionTest(info, lp.Body) {
+						okApp = true
+					}
 				}
 				return true
 			})
@@ -1311,6 +1472,27 @@ func c07FallbackOnFilteredRecords(c *Check, rule string) {
 		if lenArg == nil {
 			continue
 		}
+		// an emptiness test: len(X) compared with the constant 0 (or 1 with < / >=)
+		isEmptiness := false
+		ast.Inspect(cond, func(y ast.Node) bool {
+			if be, ok := y.(*ast.BinaryExpr); ok {
+				for _, side := range []ast.Expr{be.X, be.Y} {
+					if tv, has := info.Types[side]; has && tv.Value != nil && (tv.Value.String() == "0" || tv.Value.String() == "1") {
+						other := be.X
+						if side == be.X {
+							other = be.Y
+						}
+						if call, isC := ast.Unparen(other).(*ast.CallExpr); isC && len(call.Args) == 1 && call.Args[0] == lenArg {
+							isEmptiness = true
+						}
+					}
+				}
+			}
+			return true
+		})
+		if !isEmptiness {
+			continue
+		}
 		condPt := Pt{b, len(b.Nodes) - 1}
 		// only tests between the first lookup and the second
 		if f, _ := r.Reachable([]Pt{condPt}, false, func(q Pt) bool { return q == second }, nil); !f {
@@ -1321,12 +1503,39 @@ func c07FallbackOnFilteredRecords(c *Check, rule string) {
 			continue
 		}
 		n++
-		defs, ok := r.ReachingDefs(v, condPt, nil)
+		defs, ok := r.ReachingDefsDeep(v, condPt, nil, 0)
 		good := len(defs) > 0
 		bad := ""
 		if !ok {
-			// tuple definitions (`txts, err := r.LookupTXT(…)`) have no usable right-hand side: the raw answer
+			// tuple definitions: `txts, err := r.LookupTXT(…)` is the raw answer; `recs, err := lookupRecords(…)` with a
+			// helper of this package that applies the version filter is not
 			good, bad = false, "the raw answer of LookupTXT"
+			allFiltered, nTuple := true, 0
+			ast.Inspect(r.FI.Decl.Body, func(z ast.Node) bool {
+				as, isA := z.(*ast.AssignStmt)
+				if !isA || len(as.Rhs) != 1 || len(as.Lhs) < 2 {
+					return true
+				}
+				for _, l := range as.Lhs {
+					if objOf(info, l) == v {
+						nTuple++
+						if !filteredDef(as.Rhs[0]) {
+							allFiltered = false
+						}
+					}
+				}
+				return true
+			})
+			if nTuple > 0 && allFiltered {
+				good, bad = true, ""
+				for _, d := range defs {
+					if !filteredDef(d) {
+						good, bad = false, exprStr(d)
+					}
+				}
+				c.Hold(rule, "FetchRecord:fallback-test"+itoa(n), cond.Pos(), good, "line "+itoa(p0(c.P, cond.Pos()))+": the test "+exprStr(cond)+" looks at "+bad)
+				continue
+			}
 		}
 		for _, d := range defs {
 			if !filteredDef(d) {
@@ -1401,59 +1610,58 @@ func c11ReaperSparesHeldBuckets(c *Check, rule string) {
 			return true
 		})
 	})
+	// the holder counts: integer fields that some function increments and a Release-like function decrements
+	holder := map[*types.Var]bool{}
+	for f := range inc {
+		for _, fn := range dec[f] {
+			if strings.Contains(fn, "elease") {
+				holder[f] = true
+			}
+		}
+	}
 	n := 0
 	p.AllFuncs([]*packagesPkg{pk}, func(fi *FuncInfo) {
 		if fi.Decl.Body == nil || strings.HasSuffix(p.Fset.Position(fi.Decl.Pos()).Filename, "_test.go") {
 			return
 		}
-		if fi.Decl.Recv == nil || recvTypeName(fi.Decl) != "BucketSet" {
+		if fi.Decl.Recv == nil || recvTypeName(fi.Decl) != "BucketSet" || refName(fi.Obj) == "Close" {
 			return
 		}
-		var stack []ast.Node
-		ast.Inspect(fi.Decl.Body, func(x ast.Node) bool {
-			if x == nil {
-				stack = stack[:len(stack)-1]
-				return true
+		fl := p.FlowOfFunc(fi)
+		isDelete := func(pt Pt) bool {
+			for _, call := range callsAt(pt.Node()) {
+				if id, isId := ast.Unparen(call.Fun).(*ast.Ident); isId && id.Name == "delete" && len(call.Args) == 2 && fieldOf(info, ast.Unparen(call.Args[0])) != nil {
+					return true
+				}
 			}
-			stack = append(stack, x)
-			call, ok := x.(*ast.CallExpr)
-			if !ok || len(call.Args) != 2 {
-				return true
+			return false
+		}
+		// a point that reads a holder count (the guard, in whatever form: nested if, continue-guard, named boolean)
+		readsHolder := func(pt Pt) bool {
+			nd := pt.Node()
+			if nd == nil {
+				return false
 			}
-			id, isId := ast.Unparen(call.Fun).(*ast.Ident)
-			if !isId || id.Name != "delete" || fieldOf(info, ast.Unparen(call.Args[0])) == nil {
-				return true
+			found := false
+			ast.Inspect(nd, func(y ast.Node) bool {
+				if se, ok := y.(*ast.SelectorExpr); ok {
+					if f := fieldOf(info, se); f != nil && holder[f] {
+						found = true
+					}
+				}
+				return !found
+			})
+			return found
+		}
+		for _, pt := range fl.Points() {
+			if pt.Node() == nil || !isDelete(pt) {
+				continue
 			}
 			n++
 			c.SawFunc(fi.Name())
-			guarded := ""
-			for _, anc := range stack {
-				ifs, isIf := anc.(*ast.IfStmt)
-				if !isIf || !posIn(ifs.Body, call.Pos()) {
-					continue
-				}
-				ast.Inspect(ifs.Cond, func(y ast.Node) bool {
-					if se, ok := y.(*ast.SelectorExpr); ok {
-						if f := fieldOf(info, se); f != nil {
-							if b, isB := f.Type().Underlying().(*types.Basic); isB && b.Info()&types.IsInteger != 0 {
-								hasRel := false
-								for _, fn := range dec[f] {
-									if fn == "Release" || strings.Contains(fn, "elease") {
-										hasRel = true
-									}
-								}
-								if len(inc[f]) > 0 && hasRel {
-									guarded = f.Name()
-								}
-							}
-						}
-					}
-					return true
-				})
-			}
-			c.Hold(rule, "BucketSet."+refName(fi.Obj)+":delete"+itoa(n), call.Pos(), guarded != "", "line "+itoa(p0(p, call.Pos()))+": a bucket is removed from the table by age alone (time since the last take): a key whose permit has been held for longer than the reap interval gets a fresh bucket – the next message of that key is admitted although the limit is reached, and when both end the second Release finds an empty semaphore (panic: mismatched Release call)")
-			return true
-		})
+			_, reach := fl.Reach(Query{From: []Pt{fl.Entry()}, Inclusive: true, Target: func(q Pt) bool { return q == pt }, Avoid: func(q Pt) bool { return q != pt && readsHolder(q) }})
+			c.Hold(rule, "BucketSet."+refName(fi.Obj)+":delete"+itoa(n), pt.Node().Pos(), !reach, "line "+itoa(p0(p, pt.Node().Pos()))+": a bucket is removed from the table by age alone (time since the last take): a key whose permit has been held for longer than the reap interval gets a fresh bucket – the next message of that key is admitted although the limit is reached, and when both end the second Release finds an empty semaphore (panic: mismatched Release call)")
+		}
 	})
 	if n == 0 {
 		c.Hold(rule, "BucketSet:no-removal", token.NoPos, true, "")
